@@ -203,6 +203,31 @@ Qed.
 Lemma dec_length_pos n : 1 <= String.length (dec n).
 Proof. destruct (dec_spec n) as (_ & Hne & _). destruct (dec n); [congruence|simpl; lia]. Qed.
 
+(* Python's int() agrees with the digits-only reading on digit strings *)
+Lemma py_digits_all s : forall prev acc, all_digits s = true ->
+  py_digits s prev acc = if (match s with EmptyString => negb prev | _ => false end) then None
+                         else Some (parse_digits s acc).
+Proof.
+  induction s as [|c r IH]; intros prev acc H; simpl.
+  - destruct prev; reflexivity.
+  - simpl in H. apply andb_prop in H. destruct H as [Hc Hr]. rewrite Hc, (IH true _ Hr).
+    destruct r; reflexivity.
+Qed.
+
+Lemma int_py s n : int_of_string s = Some n -> py_int s = Some (Z.of_N n).
+Proof.
+  unfold int_of_string. destruct s as [|c r]; [discriminate|].
+  destruct (all_digits (String c r)) eqn:E; [|discriminate]. intros H. inversion H; subst.
+  assert (Hc : is_digit c = true) by (simpl in E; apply andb_prop in E; tauto).
+  unfold py_int.
+  assert (Hpy : py_digits (String c r) false 0 = Some (parse_digits (String c r) 0))
+    by (rewrite (py_digits_all _ false 0%N E); reflexivity).
+  destruct c as [[] [] [] [] [] [] [] []]; try discriminate Hc; rewrite Hpy; reflexivity.
+Qed.
+
+Lemma dec_Z_of_N n : dec_Z (Z.of_N n) = dec n.
+Proof. destruct n; reflexivity. Qed.
+
 (* leading zeros *)
 Fixpoint zeros (k : nat) : string :=
   match k with O => "" | S k' => String "0" (zeros k') end.
